@@ -100,6 +100,30 @@ func genRsm(r *Rng, tier string) *Enc {
 		c := df.Columns[valueCols[0]]
 		c.Data[r.Intn(n)] = math.NaN() // a NaN cell is a cell: the aggregation sees it as it is
 	}
+	if r.Chance(6) && n > 0 {
+		// another column whose name differs from the time column's only in letter case, holding text
+		d := make([]any, n)
+		for i := range d {
+			d[i] = "raw"
+		}
+		df.Columns["T"] = &dataframe.Column[any]{Name: "T", Data: d}
+	}
+	if r.Chance(8) && n >= 2 {
+		// the frame has a history: it was resampled once, then a row was dropped and another appended (same length,
+		// same arrays) — nothing remembered from the first call may leak into the recorded one
+		guard(func() error {
+			df.Resample("t", freq0(r), aggFn(0))
+			if err := df.DropRow(r.Intn(n)); err != nil {
+				return err
+			}
+			row := map[string]any{}
+			for _, k := range df.ColumnNames() {
+				row[k] = df.Columns[k].Data[0]
+			}
+			row["t"] = Pick(r, anchors)
+			return df.AppendRow(df, row)
+		})
+	}
 	col := "t"
 	if r.Chance(5) {
 		col = "zz"
@@ -200,3 +224,5 @@ func genRsm(r *Rng, tier string) *Enc {
 	}
 	return e
 }
+
+func freq0(r *Rng) string { return Pick(r, []string{"Y", "M", "D", "H", "T", "S"}) }
